@@ -1,6 +1,8 @@
 """C07 - number tests report exact inclusive tail probabilities (Poisson, NBD, empirical)."""
 import math
 
+import os
+
 import numpy
 import scipy.special as sp
 
@@ -11,7 +13,7 @@ META = {
     "title": "Number tests: exact inclusive tails",
     "level": "exploration",
     "rule": ("primitive cases (mean, n_obs[, variance]) on a grid: means log-spaced 1e-6..1e5, n_obs in {0,1,2,floor(mu)+-1, mu+-k*sqrt(mu), "
-             "1e5}, NBD variances mean*(1+10^[-3..3]); end-to-end cases through number_test / negative_binomial_number_test / catalog "
+             "1e5}, NBD variances mean*(1+10^[-9..9]); end-to-end cases through number_test / negative_binomial_number_test / catalog "
              "number_test with scaled forecasts and catalogs of n_obs events; empirical multisets with heavy ties. Non-trivial: "
              "pmf(n_obs) > 1e-6 (inclusive vs exclusive tail differs observably) or ties at n_obs in the empirical sample; distinct = "
              "(law, parameters, n_obs)."),
@@ -19,7 +21,7 @@ META = {
                     "absolute tolerance 1e-9 on tail probabilities (the implementation's 1-cdf form has absolute accuracy)"],
     "deciding": ["poisson_evaluations._number_test_ndarray", "binomial_evaluations._nbd_number_test_ndarray", "stats.get_quantiles"],
 }
-META["added"] = 'Added: re-scaling histories with total reads in between, array-valued scale factors (per cell, per magnitude bin, full table), observed counts above 16384 through the public wrappers, in-place mutation of yielded catalogs before the catalog N-test.'
+META["added"] = 'Added: re-scaling histories with total reads in between, array-valued scale factors (per cell, per magnitude bin, full table), observed counts above 16384 through the public wrappers, in-place mutation of yielded catalogs before the catalog N-test. forecasts streamed from files with placeholder rows / id gaps, NBD variance ratios 1+1e-9..1e9.'
 MANIFEST = {
     "technique": "runtime post-conditions on the real number-test primitives and public tests vs independent incomplete-gamma/beta and explicit pmf-sum oracles; identity and monotonicity checkers over a parameter grid",
     "level_text": "Each call of the Poisson / NBD / empirical number-test primitives (2e4 quick, 1e6 thorough grid points plus end-to-end runs through the three public tests on generated forecasts and catalogs, including scaled forecasts) is checked against tails computed by incomplete gamma/beta functions and explicit pmf summation; delta1+delta2 = 1+pmf and monotonicity in the mean are checked across the grid.",
@@ -67,12 +69,20 @@ def nbd_logpmf(k, r, p):
     return math.lgamma(k + r) - math.lgamma(k + 1.0) - math.lgamma(r) + r * math.log(p) + k * math.log1p(-p)
 
 
+def nbd_pmf(k, mean, var):
+    """NBD pmf, stable for variance/mean ratios 1+1e-9 .. 1e9: Gamma(k+r)/(k! Gamma(r)) = 1/((k+r) B(r, k+1)) (no difference of huge
+    log-gammas), log p = log1p(-q) with q = (var-mean)/var formed without cancellation."""
+    q = (var - mean) / var
+    r = mean * mean / (var - mean)
+    return math.exp(-math.log(k + r) - float(sp.betaln(r, k + 1.0)) + r * math.log1p(-q) + (k * math.log(q) if k else 0.0))
+
+
 def nbd_tails(mean, var, n):
     r, p = nbd_params(mean, var)
     n = int(n)
     le = float(sp.betainc(r, n + 1.0, p))
     ge = 1.0 if n == 0 else float(sp.betainc(float(n), r, 1.0 - p))
-    return ge, le, math.exp(nbd_logpmf(n, r, p))
+    return ge, le, nbd_pmf(n, mean, var)
 
 
 def _chk(ctx, clause, case, got, want, tags, tol=TOL):
@@ -239,7 +249,7 @@ def ex_e2e_nbd(ctx, total, n_obs, var, seed=0):
     _chk(ctx, "e2e delta2 [nbd]", case, res.quantile[1], le, dict(tags, which="delta2"), 1e-7)
 
 
-def ex_e2e_catalog(ctx, sizes, n_obs, seed=0, pre_iterations=0, mutate=False):
+def ex_e2e_catalog(ctx, sizes, n_obs, seed=0, pre_iterations=0, mutate=False, source="memory"):
     sizes0 = list(sizes)
     import csep.core.catalog_evaluations as ce
     rng = numpy.random.default_rng([seed, 9])
@@ -251,6 +261,18 @@ def ex_e2e_catalog(ctx, sizes, n_obs, seed=0, pre_iterations=0, mutate=False):
         lons, lats = fixtures.events_in_cells(reg, cells, rng)
         cats.append(fixtures.catalog(lons, lats, rng.choice([5.0, 5.1], s), region=reg, catalog_id=j))
     cf = fixtures.catalog_forecast(cats, reg)
+    tmpd = None
+    if source != "memory" and len(cats) and len(cats[-1].catalog) >= 0:
+        # the same synthetic catalogs streamed from a catalog-forecast file: empty catalogs as placeholder rows ("file") or simply omitted,
+        # i.e. gaps in the catalog ids ("file-gaps"; the final id is always present)
+        import csep
+        import tempfile
+        from . import c12
+        tmpd = tempfile.mkdtemp(prefix="c07-", dir=os.environ.get("VERIF_TMP", "/var/tmp"))
+        path = os.path.join(tmpd, "fc.csv")
+        rows = [[(e[0].decode(), int(e[1]), float(e[2]), float(e[3]), float(e[4]), float(e[5])) for e in c.catalog.tolist()] for c in cats]
+        c12.write_file(path, rows, [source == "file"] * len(rows), bool(seed % 2), "frac")
+        cf = csep.load_catalog_forecast(path, region=reg, store=bool(seed % 3), name="cf")
     cells = rng.integers(0, 4, n_obs)
     lons, lats = fixtures.events_in_cells(reg, cells, rng)
     obs = fixtures.catalog(lons, lats, rng.choice([5.0, 5.1], n_obs), region=reg)
@@ -263,15 +285,19 @@ def ex_e2e_catalog(ctx, sizes, n_obs, seed=0, pre_iterations=0, mutate=False):
         for _c in cf:
             _c.filter("magnitude >= 5.05")
         sizes = [int(numpy.sum(c.get_magnitudes() >= 5.05)) for c in cats]
-    case = {"exec": "e2e_catalog", "args": {"sizes": list(map(int, sizes0)), "n_obs": n_obs, "seed": seed, "pre_iterations": pre_iterations, "mutate": mutate}}
+    case = {"exec": "e2e_catalog", "args": {"sizes": list(map(int, sizes0)), "n_obs": n_obs, "seed": seed, "pre_iterations": pre_iterations, "mutate": mutate,
+                                            "source": source}}
     ok, res, tb = ctx.call(ce.number_test, cf, obs, verbose=False)
+    if tmpd is not None:
+        import shutil
+        shutil.rmtree(tmpd, ignore_errors=True)
     ctx.mon("e2e:catalog number_test", 1)
     if not ok:
         ctx.violate("catalog number_test raised", case, observed=repr(res), tb=tb, tags={"law": "empirical", "e2e": True})
         return
     x = numpy.asarray(sizes)
     ge, le = int(numpy.sum(x >= n_obs)) / float(x.size), int(numpy.sum(x <= n_obs)) / float(x.size)
-    tags = {"law": "empirical", "e2e": True, "tie": bool(numpy.any(x == n_obs)), "pre_iterations": pre_iterations, "mutated_in_place": mutate}
+    tags = {"law": "empirical", "e2e": True, "tie": bool(numpy.any(x == n_obs)), "pre_iterations": pre_iterations, "mutated_in_place": mutate, "source": source}
     if res.observed_statistic != n_obs:
         ctx.violate("n_obs is not the catalog's event count", case, observed=res.observed_statistic, expected=n_obs, tags=tags)
     if float(res.quantile[0]) != ge or float(res.quantile[1]) != le:
@@ -315,7 +341,7 @@ def run(ctx):
                 if abs(float(r[0]) + float(r[1]) - 1.0 - pmf) > 2e-9:
                     ctx.violate("delta1+delta2 != 1+P(N=n_obs) [poisson]", {"exec": "pois", "args": {"mu": mu, "n": n}},
                                 observed=float(r[0]) + float(r[1]), expected=1.0 + pmf, tags={"law": "poisson", "identity": True})
-            for e in (rng.uniform(-3, 3), -3.0, 3.0)[:2 if not thorough else 3]:
+            for e in (rng.uniform(-3, 3), rng.uniform(-9, 9), -3.0, 3.0, -8.0, 8.0)[:3 if not thorough else 6]:
                 var = mu * (1.0 + 10 ** e)
                 if var > mu * (1 + 1e-9):
                     r2 = ex_nbd(ctx, mu, n, var)
@@ -323,7 +349,9 @@ def run(ctx):
                     g2, l2, pmf2 = nbd_tails(mu, var, n)
                     if pmf2 > 1e-6:
                         ctx.nt(digest(("n", mu, n, var)))
-                    if r2 is not None and abs(float(r2[0]) + float(r2[1]) - 1.0 - pmf2) > 2e-8:
+                    # beyond variance/mean ratios 1 +- 1e-3 .. 1e3 the incomplete-beta evaluations (scipy, used by the library and by the
+                    # oracle alike) are themselves only good to ~1e-7 (r up to 1e14): the identity is then decided at 1e-6 (observed deviations up to 2.3e-7 at r = 7e10)
+                    if r2 is not None and abs(float(r2[0]) + float(r2[1]) - 1.0 - pmf2) > (2e-8 if abs(e) <= 3 else 1e-6):
                         ctx.violate("delta1+delta2 != 1+P(N=n_obs) [nbd]", {"exec": "nbd", "args": {"mu": mu, "n": n, "var": var}},
                                     observed=float(r2[0]) + float(r2[1]), expected=1.0 + pmf2, tags={"law": "nbd", "identity": True})
         if i % 97 == 0:
@@ -360,14 +388,15 @@ def run(ctx):
         scale = None if j % 3 else float(r.choice([0.5, 2.0, 0.1, 7.0]))
         ex_e2e_poisson(ctx, total, n_obs, scale, seed=j, rescale_history=None if j % 4 else ([float(r.choice([2.0, 0.5, 3.0])), float(r.choice([0.25, 1.0, 5.0]))] if j % 8 else
                                                             [float(r.choice([2.0, 0.5])), str(r.choice(["percell", "permag", "full"]))]))
-        ex_e2e_nbd(ctx, total, n_obs, total * (1 + 10 ** r.uniform(-2, 2)), seed=j)
+        ex_e2e_nbd(ctx, total, n_obs, total * (1 + 10 ** (r.uniform(-2, 2) if j % 3 else r.uniform(-8, 8))), seed=j)
         ctx.count(2)
         ctx.nt(digest(("e2e", j, ctx.seed, total, n_obs)))
         # empirical
         J = int(r.integers(1, 40))
         sizes = r.poisson(r.uniform(0.3, 8), J)
         nob = int(r.choice([0, int(sizes.min()), int(sizes.max()), int(sizes[0]), int(sizes.max()) + 1, int(r.integers(0, 12))]))
-        ex_e2e_catalog(ctx, sizes.tolist(), nob, seed=j, pre_iterations=int(j % 4 == 1) + int(j % 8 == 5), mutate=bool(j % 5 == 2))
+        ex_e2e_catalog(ctx, sizes.tolist(), nob, seed=j, pre_iterations=int(j % 4 == 1) + int(j % 8 == 5), mutate=bool(j % 5 == 2),
+                       source="memory" if j % 5 == 2 else ["memory", "file", "file-gaps"][j % 3])
         ctx.count(1)
         if numpy.any(sizes == nob):
             ctx.nt(digest(("emp", sizes.tolist(), nob)))
